@@ -50,9 +50,7 @@ func glslQuals(io wgen.FullIO, es bool) string {
 	case "flat":
 		q = append(q, "flat")
 	case "linear":
-		if !es {
-			q = append(q, "noperspective")
-		}
+		q = append(q, "noperspective")
 	}
 	switch io.Sampling {
 	case "centroid":
@@ -115,6 +113,9 @@ func checkGLSL(c *c17case, r *report) {
 				switch {
 				case !explicit && got >= 0:
 					r.fail("glsl.binding.unsupported-version", "entry point %q: %s carries layout(binding = %d) but GLSL %s has no binding qualifier", e.Name, what, got, c.Opt.GlslVersion)
+				case explicit && c.Opt.GlslUseMap && inMap && got != s && strings.Count(what, "_group_") >= 2:
+					// a texture sampled through a second sampler gets another combined uniform "<tex>_<samp>"
+					r.fail("glsl.binding.map.second-sampler", "entry point %q: BindingMap maps @group(%d) @binding(%d) to %d, %s says binding = %d", e.Name, res.Group, res.Binding, s, what, got)
 				case explicit && c.Opt.GlslUseMap && inMap && got != s:
 					r.fail("glsl.binding.map", "entry point %q: BindingMap maps @group(%d) @binding(%d) to %d, %s says binding = %d", e.Name, res.Group, res.Binding, s, what, got)
 				case explicit && c.Opt.GlslUseMap && !inMap:
@@ -199,7 +200,7 @@ func checkGLSL(c *c17case, r *report) {
 			textNames[s.name] = true
 			tm, ok := info.TextureMappings[s.name]
 			if !ok {
-				r.fail("glsl.reflection.texturemappings", "entry point %q: uniform %s %s has no TextureMappings entry", e.Name, s.typ, s.name)
+				r.fail("glsl.reflection.texturemappings.missing", "entry point %q: uniform %s %s has no TextureMappings entry", e.Name, s.typ, s.name)
 				continue
 			}
 			tb := rb{int(tm.TextureBinding.Group), int(tm.TextureBinding.Binding)}
@@ -241,7 +242,9 @@ func checkGLSL(c *c17case, r *report) {
 		}
 		// --- IO
 		var want, got []string
-		key := func(dir string, loc int, quals string) string { return fmt.Sprintf("%s location(%d) %s", dir, loc, quals) }
+		key := func(dir string, loc int, quals string) string {
+			return fmt.Sprintf("%s location(%d) %s", dir, loc, quals)
+		}
 		for _, io := range e.Inputs {
 			if io.Builtin == "" {
 				q := ""
@@ -283,6 +286,9 @@ func checkGLSL(c *c17case, r *report) {
 				if x != "smooth" && inter {
 					q = append(q, x)
 				}
+			}
+			if es && strings.Contains(v.quals, "noperspective") {
+				r.class("glsl:es-noperspective-qualifier") // not a GLSL ES qualifier; validity is not C17's business
 			}
 			sort.Strings(q)
 			got = append(got, key(v.dir, loc, strings.Join(q, " ")))
